@@ -125,6 +125,49 @@ def field_roles(prog, an, b, ef, hidx):
     return out
 
 
+def const_fields(prog, an, ctxty, funcs):
+    """{(offset, size): constant} for fields of the context type that every store in the back end's unit sets to the
+    same constant and whose address is never handed to a callee."""
+    from ..mem import AddrMap
+    units = {f.unit for f in funcs}
+    vals, bad = {}, set()
+    for f in prog.defined():
+        if f.unit not in units:
+            continue
+        am = an.summaries[f.key].fa.am if f.key in an.summaries else AddrMap(f)
+        for i in f.all_insts():
+            if i["op"] == "store":
+                a = am.of(i["ops"][1])
+                if a is None or a.segs[-1].ty != ctxty or a.segs[-1].off is None:
+                    if a is not None and a.segs[-1].ty == ctxty:
+                        bad.add("*")
+                    continue
+                k = (a.segs[-1].off, i.get("size"))
+                v = i["ops"][0]
+                if v[0] == "c":
+                    vals.setdefault(k, set()).add(int(v[1]))
+                else:
+                    bad.add(k)
+            elif i["op"] == "call":
+                for o in i["ops"]:
+                    a = am.of(o) if o[0] in ("i", "a") else None
+                    if a is not None and a.segs[-1].ty == ctxty and a.segs[-1].off is not None and len(a.segs) >= 1:
+                        bad.add(("from", a.segs[-1].off))
+    out = {}
+    if "*" in bad:
+        return out
+    for k, vs in vals.items():
+        if len(vs) != 1 or k in bad:
+            continue
+        if any(isinstance(x, tuple) and x[0] == "from" and x[1] <= k[0] < x[1] + 1 for x in bad):
+            continue
+        # an address at or before the field handed to a callee may reach it only if it points AT the field
+        if any(isinstance(x, tuple) and x[0] == "from" and x[1] == k[0] for x in bad):
+            continue
+        out[k] = next(iter(vs))
+    return out
+
+
 def ctr_backends(ctx, prog, an):
     pubs = public_functions(ctx, prog)
     slot_users = {}     # (struct, idx) -> (public name, contract, decl)
@@ -198,6 +241,9 @@ def ctr_backends(ctx, prog, an):
         for need in ("counter", "ecounter", "offset"):
             if need not in b.fields:
                 raise AnalysisBroken("context type %s: no field plays the role `%s` (anchor vanished)" % (b.ctxty, need))
+        # scalar fields of the context that only ever receive one constant (set once by init): loads of them are
+        # that constant (a `limit` / `stream_size` bookkeeping field next to the position field)
+        b.const_fields = const_fields(prog, an, b.ctxty, [fn for fn in fs if fn is not None])
         b.batch = b.fields["ecounter"][1]
         if b.batch % b.block:
             raise AnalysisBroken("ecounter size %d of %s is not a multiple of the block size" % (b.batch, b.ctxty))
